@@ -20,6 +20,11 @@ def backend_legs(v, acc, th):
         if nv.violated != inv:
             raise vlib.Inconclusive("%s did not violate %s: %s" % (cfg, inv, nv.tail[-1500:]))
         acc.tlc.append({"cfg": cfg, "expected_violation": inv})
+    # unbounded companion (TLAPS): for ANY sets of runs and files, one lock for the backend keeps all critical sections apart
+    proved, nobl, tail = vlib.tlaps("V2BackendProof", timeout=600)
+    if not proved:
+        raise vlib.Inconclusive("tlapm did not prove V2BackendProof: " + tail[-1500:])
+    acc.tlc.append({"cfg": "V2BackendProof.tla (tlapm)", "obligations_proved": nobl})
     for race in (False, True):
         out = os.path.join(sub("out"), "backend_overlap.%s.ndjson" % race)
         if os.path.exists(out):
@@ -74,6 +79,11 @@ def run():
                 v.fail(sig, {"reports": n, "first": first, "diffcalls": shared})
             elif rc != 0:
                 raise vlib.Inconclusive("driver under -race failed:\n" + txt[-3000:])
+            for x in recs:      # what the driver itself saw under the race build (helper processes run under the detector as well)
+                if x.get("ev") == "fault":
+                    v.fail("cold-start" if "cold start" in str(x.get("why")) else "failing-reader", x)
+                if x.get("ev") == "argfault":
+                    v.fail("caller-bytes", x)
             continue
         m = re.search(r"fatal error: concurrent map[^\n]*", txt)
         if m:   # the Go runtime stopped the process: an unsynchronised map access is the violation itself
@@ -84,7 +94,7 @@ def run():
             raise vlib.Inconclusive("concurrent driver failed:\n" + txt[-3000:])
         for x in recs:
             if x.get("ev") == "fault":
-                v.fail("failing-reader", x)
+                v.fail("cold-start" if "cold start" in str(x.get("why")) else "failing-reader", x)
             if x.get("ev") == "argfault":       # a call wrote to its caller's memory (the input, the capacity behind it, a neighbouring input)
                 v.fail("caller-bytes", x)
         lines = [x for x in recs if x.get("ev") in ("new", "add", "match", "reset")]
